@@ -896,7 +896,11 @@ where
             .iter()
             .map(|j| crate::verif::tag(&j.msg))
             .collect();
-        let mut cur: Vec<i64> = self.curr_jobs.keys().map(|k| crate::verif::tag(k)).collect();
+        let mut cur: Vec<i64> = self
+            .curr_jobs
+            .keys()
+            .map(|k| crate::verif::tag(k))
+            .collect();
         cur.sort_unstable();
         let mut pend: Vec<(i64, i64)> = self
             .pending_key_counts
